@@ -296,12 +296,19 @@ func c04CUCaseKey(c c04CUCase) string {
 	return fmt.Sprintf("%s [%s] -> [%s] | %s", c.Program, c04RulesKey(c.Old), c04RulesKey(c.New), strings.Join(rd, " ; "))
 }
 
-func TestVerifC04ConcurrentRouteUpdates(t *testing.T) {
+// c04CUProp: the property the part reports under. C12 ("requests concurrent with an update are handled
+// entirely by the old or entirely by the new configuration") runs the same exploration through
+// zz_verif_C12_routeupdates_test.go (unit route-update-schedules of C12, "also": ["C04"]).
+var c04CUProp = "C04"
+
+func TestVerifC04ConcurrentRouteUpdates(t *testing.T) { c04CUMain(t) }
+
+func c04CUMain(t *testing.T) {
 	c04Quiet()
-	p := vreport.Begin("C04", "concurrent-route-updates", time.Duration(vreport.Pick(4, 25))*time.Minute)
+	p := vreport.Begin(c04CUProp, "concurrent-route-updates", time.Duration(vreport.Pick(4, 25))*time.Minute)
 	var rc c04CUCase
 	if vreport.Replaying() {
-		if vreport.ReplayFor("C04", "concurrent-route-updates", &rc) {
+		if vreport.ReplayFor(c04CUProp, "concurrent-route-updates", &rc) {
 			c04CURun(p, rc, true, 0)
 			p.End(true, "replay", "replay of one recorded schedule")
 		}
